@@ -186,6 +186,15 @@ fn main() {
                 }
             }
         }
+        "giant" => {
+            // helper process of common::giant_input: steer the giant warm-up inputs and print them
+            for p in 0..6u8 {
+                for k in 0..2usize {
+                    let (b, steps) = giant_input(p, k);
+                    println!("{} {}", steps, hex(b));
+                }
+            }
+        }
         "deep" => {
             // debug: pfv deep <proto> <x-hex> <y-hex> <steps>: greedy long steering, opcode histogram
             let proto: u8 = args[2].parse().unwrap();
@@ -340,7 +349,30 @@ mod mon_bytes_run {
                     args.push("--mutators".into());
                     args.extend(muts.iter().map(|m| m.name().to_string()));
                 }
-                match cli_batch(&args, samples, &[]) {
+                // a third of the jobs also go through the action wrapper's discrete inputs
+                let via_wrapper = if i % 3 == 0 {
+                    let mut inputs: Vec<(&str, String)> = vec![("INPUT_PROTOCOL", proto.to_string()), ("INPUT_MUTATION_RATE", rate.to_string())];
+                    inputs.push(("INPUT_ALLOW_EXT", if e { "true" } else { "false" }.to_string()));
+                    inputs.push(("INPUT_ALLOW_BUFFER", if b { "yes" } else { "no" }.to_string()));
+                    inputs.push(("INPUT_UNSAFE_MUTATIONS", if *uns { "1" } else { "0" }.to_string()));
+                    if !muts.is_empty() {
+                        inputs.push(("INPUT_MUTATORS", muts.iter().map(|m| m.name()).collect::<Vec<_>>().join(",")));
+                    }
+                    match action_batch(&inputs, samples / 3 + 1) {
+                        Ok(f) => f,
+                        Err(m) => {
+                            acc.inconclusive.push(format!("action wrapper run failed in the front-end layer: {}", m));
+                            Vec::new()
+                        }
+                    }
+                } else {
+                    Vec::new()
+                };
+                let n_wrapper = via_wrapper.len();
+                match cli_batch(&args, samples, &[]).map(|mut f| {
+                    f.splice(0..0, via_wrapper);
+                    f
+                }) {
                     Err(m) => acc.inconclusive.push(format!("CLI batch run failed in the front-end layer: {}", m)),
                     Ok(files) => {
                         let cfg = Config {
@@ -351,15 +383,21 @@ mod mon_bytes_run {
                             buf: b,
                             ..Config::default_for(proto, Entropy::Seed(0))
                         };
-                        for bytes in files {
+                        for (fi, bytes) in files.into_iter().enumerate() {
                             let before = acc.violations.len();
                             let res = CaseResult { outcome: Outcome::Ok(bytes), events: vec![] };
                             check(&cfg, &res, acc);
+                            let wrapper = fi < n_wrapper;
                             for v in acc.violations.iter_mut().skip(before) {
-                                v.message = format!("[file written by the CLI: pickle-fuzzer --dir D {}] {}", args.join(" "), v.message);
-                                v.signature = format!("{}:via_cli", v.signature);
+                                if wrapper {
+                                    v.message = format!("[file written through scripts/action-run.sh for the same options as: {}] {}", args.join(" "), v.message);
+                                    v.signature = format!("{}:via_wrapper", v.signature);
+                                } else {
+                                    v.message = format!("[file written by the CLI: pickle-fuzzer --dir D {}] {}", args.join(" "), v.message);
+                                    v.signature = format!("{}:via_cli", v.signature);
+                                }
                             }
-                            acc.count("cli_files_checked", 1);
+                            acc.count(if wrapper { "wrapper_files_checked" } else { "cli_files_checked" }, 1);
                         }
                     }
                 }
@@ -736,6 +774,15 @@ mod mon_bytes_run {
                     }
                 }
             }
+            // spellings that say "off" in every reading (the wrapper documents true / false)
+            const FALSY: [&str; 20] = [
+                "false", "FALSE", "False", "0", "no", "No", "NO", "off", "OFF", "Off", "none", "None", "NONE", "null", "disabled", "n", "f", "nope", "untrue", "-",
+            ];
+            // every falsy spelling on both switches at protocol 5 (where all five opt-in opcodes exist)
+            for k in 0..FALSY.len() {
+                jobs.push((5, false, false, k % 2 == 0, true));
+            }
+            let n_plain = jobs.len() - FALSY.len();
             let jobs_ref = &jobs;
             let fe = par_run(
                 jobs.len(),
@@ -744,10 +791,14 @@ mod mon_bytes_run {
                     let (proto, e, b, muts, wrapper) = jobs_ref[i];
                     let files = if wrapper {
                         let truth = ["true", "1", "yes", "TRUE"][i % 4];
+                        let off = if i >= n_plain { FALSY[i - n_plain] } else { FALSY[i % FALSY.len()] };
                         let mut inputs: Vec<(&str, String)> = vec![("INPUT_PROTOCOL", proto.to_string())];
-                        inputs.push(("INPUT_ALLOW_EXT", if e { truth.to_string() } else { "false".to_string() }));
-                        inputs.push(("INPUT_ALLOW_BUFFER", if b { truth.to_string() } else { "false".to_string() }));
-                        action_batch(&inputs, samples)
+                        inputs.push(("INPUT_ALLOW_EXT", if e { truth.to_string() } else { off.to_string() }));
+                        inputs.push(("INPUT_ALLOW_BUFFER", if b { truth.to_string() } else { off.to_string() }));
+                        if i >= n_plain {
+                            acc.count("wrapper_falsy_spellings_tried", 1);
+                        }
+                        action_batch(&inputs, if i >= n_plain { samples / 3 } else { samples })
                     } else {
                         let mut args: Vec<String> = vec!["--protocol".into(), proto.to_string()];
                         if e {
